@@ -27,6 +27,8 @@ def gen_history(rng, spec, n, ops=('ev',), weights=None, queries=False):
       out.append([k, rng.choice(sp.signals)])
     elif k in ('is_in', 'child'):
       out.append([k, rng.choice(names + ['top'])])
+    elif k == 'live':
+      out.append([k] + rng.choice([[True, True], [True, False], [False, True], [False, False]]))
     else:
       out.append([k])
   return out
